@@ -83,6 +83,10 @@ Inductive case :=
      genuine NSEC3 chain (decided by the generator) *)
 | CaseAuthNsec3 (z : rzone) (signer : name) (recs : list nsec3) (signed : list bool) (kept : list N) (tab : list (name * N))
                 (judged : bool) (probes : list aprobe)
+  (* wildcard.go: VerifyWildcardAnswerForZoneWithWork on an Answer of RRSIGs (owner, Labels) and an Authority section
+     of NSEC or NSEC3 records; judged = every denial record is a genuine record of the zone; observed error class, secure *)
+| CaseWild (z : rzone) (signer : name) (nsecs : list nsec) (recs3 : list nsec3) (tab : list (name * N)) (judged : bool)
+           (sigs : list (name * N)) (err : N) (secure : bool)
   (* Resolver.Resolve: the minimised walk below the zone's authority, the denial records as in CaseAuthNsec / CaseAuthNsec3 *)
 | CaseWalkNsec (z : rzone) (signer : name) (recs : list nsec) (signed : list bool) (probes : list wprobe)
 | CaseWalkNsec3 (z : rzone) (signer : name) (recs : list nsec3) (kept : list N) (tab : list (name * N))
@@ -308,6 +312,10 @@ Definition check_case (c : case) : bool :=
       (length signed =? length recs)%nat &&
       forallb (fun p => auth_eqb (authority_nsec_signed (a_rcode p) (a_cd p) (canon (a_q p)) (a_qtype p) (a_qclass p) sg
                                                         (combine cs signed)) p) probes
+  | CaseWild z signer nsecs recs3 tab _ sigs e secure =>
+      let ctab := map (fun p => (canon (fst p), snd p)) tab in
+      let '(me, msec) := wild_answer (map (fun s => (canon (fst s), snd s)) sigs) (canon_recs nsecs) recs3 (canon signer) ctab true in
+      (err_code me =? e) && (negb (e =? 0) || Bool.eqb msec secure)
   | CaseWalkNsec z signer recs signed probes =>
       let cs := canon_recs recs in
       let sg := canon signer in
@@ -379,7 +387,11 @@ Definition spec_probe3 (z : zone) (exact_ok aggr_ok : bool) (p : probe3) : bool 
      ((negb ((fst (o_ne p) =? 0) && snd (o_ne p)) || ((q3class p =? zone_class) && negb (exists_in_b z qe))) &&
       (negb ((fst (o_nd p) =? 0) && snd (o_nd p)) || ((q3class p =? zone_class) && nodata_true_b z qe (q3type p))) &&
       (* an accepted insecure-delegation proof for an owner of the zone needs NS and neither DS nor SOA there *)
-      (negb (o_dl p =? 0) || negb (owner_b z (canon (q3 p))) || insecure_delegation_b z (canon (q3 p))))) &&
+      (negb (o_dl p =? 0) || negb (owner_b z (canon (q3 p))) || insecure_delegation_b z (canon (q3 p))) &&
+      (* round 6: "no DS, the delegation is insecure" — from VerifyDelegationForZoneWithWork, or as an accepted DS NODATA
+         (secure or Opt-Out) — is never accepted for a name strictly below a delegation that has a DS, or below a DNAME *)
+      (negb (o_dl p =? 0) || negb (below_secure_cut_b z (canon (q3 p)))) &&
+      (negb ((fst (o_nd p) =? 0) && (q3type p =? T_DS)) || negb (below_secure_cut_b z qe)))) &&
   (negb aggr_ok || spec_aobs z qe (q3type p) (q3class p) (o_ag p)).
 
 Definition spec_case (c : case) : bool :=
@@ -395,6 +407,15 @@ Definition spec_case (c : case) : bool :=
       if negb (zone_wf_b z && rname_eqb (canon signer) (z_apex z) &&
                forallb (fun rs => negb (snd rs) || (genuine_b z (fst rs) && (c_class (fst rs) =? zone_class))) (combine cs signed)) then true else
       forallb (spec_aprobe z) probes
+  | CaseWild rz signer nsecs recs3 tab judged sigs e secure =>
+      let z := canon_zone rz in
+      (* an accepted, authenticated Answer denies every next closer name: none of them may exist directly (as an
+         owner or an empty non-terminal) when the denial records are genuine records of the zone *)
+      if negb (zone_wf_b z && rname_eqb (canon signer) (z_apex z) && judged &&
+               forallb (fun r => genuine_b z r && (c_class r =? zone_class)) (canon_recs nsecs)) then true else
+      negb ((e =? 0) && secure) ||
+      forallb (fun nc => negb (prefix_b (z_apex z) nc) || negb (exists_direct_b z nc))
+              (wild_denied (map (fun s => (canon (fst s), snd s)) sigs))
   | CaseWalkNsec rz signer recs signed probes =>
       let z := canon_zone rz in
       let cs := canon_recs recs in
